@@ -213,7 +213,7 @@ def rock_geometry(slot_size):
 
 def parse_meta(buf):
     """Store::UnpackIndexSwapMeta (+ ZeroedSlot) on the bytes that follow a cell header / start a ufs file
-    -> 'z' | 'u' | ('o', keyhex or None, swap_file_sz, flags, swap_hdr_sz)"""
+    -> 'z' | 'u' | ('o', keyhex or None, swap_file_sz, flags, swap_hdr_sz, url or None)"""
     if len(buf) >= 10 and buf[:10] == b"\0" * 10:
         return "z"
     if len(buf) < 5 or buf[0] != 3:
@@ -221,7 +221,7 @@ def parse_meta(buf):
     total = struct.unpack("<i", buf[1:5])[0]
     if total < 5 or total > len(buf):
         return "u"
-    pos, key, sfs, flags = 5, None, 0, 0
+    pos, key, sfs, flags, url = 5, None, 0, 0, None
     while pos < total:
         if pos + 5 > total:
             return "u"
@@ -244,14 +244,17 @@ def parse_meta(buf):
                 return "u"
             sfs = struct.unpack("<Q", val[32:40])[0]
             flags = struct.unpack("<H", val[42:44])[0]
+        elif typ == 4:
+            url = val.split(b"\0", 1)[0].decode("latin-1") if b"\0" in val else None
         pos += 5 + ln
-    return ("o", key, sfs, flags, total)
+    return ("o", key, sfs, flags, total, url)
 
 
 def meta_text(m, keyname):
+    """the last field names the key whose URL the metadata carries (UnpackHitSwapMeta compares the URL too)"""
     if m in ("z", "u"):
         return m
-    return "o.%s.%d.%d.%d" % (keyname(m[1]) if m[1] else "none", m[2], m[3], m[4])
+    return "o.%s.%d.%d.%d.%s" % (keyname(m[1]) if m[1] else "none", m[2], m[3], m[4], keyname(store_key(m[5]).hex()) if m[5] else "none")
 
 
 def rock_header(b):
@@ -563,8 +566,13 @@ class Run:
             tag = "x"
             for (u, v) in vers:
                 for jj, (lo, s2, plen) in enumerate(self.segments(u, v, cap)):
-                    if s2 == seg and (jj == 0) == (j == 0):
+                    if (jj == 0) != (j == 0):
+                        continue
+                    if s2 == seg:
                         tag = "%sv%dp%d" % (self.short(u.rsplit("/", 1)[1]), v, jj)
+                        break
+                    if pos + len(seg) == len(got) and len(seg) < len(s2) and s2[:len(seg)] == seg:
+                        tag = "%sv%dp%d~%d" % (self.short(u.rsplit("/", 1)[1]), v, jj, len(seg))     # the response ended inside this piece
                         break
                 if tag != "x":
                     break
@@ -642,6 +650,12 @@ class Run:
             if not self.sq.alive():
                 break
             res.append(self.do(op))
+            if re.search(r"fail|died|unsettled|=X", res[-1]):
+                # a request failed: if the crash point was hit, the process is gone within moments
+                for _ in range(100):
+                    if not self.sq.alive():
+                        break
+                    time.sleep(0.01)
         if res and re.search(r"fail|died|Xno-response", res[-1]):
             for _ in range(100):
                 if not self.sq.alive():
@@ -705,6 +719,8 @@ class Run:
                     hd = rock_header(r["data"]) if r["kind"] in "WP" else None
                     if r["kind"] == "K":
                         items.append("K:%d" % (off // slot_size))
+                    elif r["kind"] == "P" and off >= 0 and off % slot_size == 0:
+                        items.append("P:%d:%d" % (off // slot_size, r["len"]))
                     elif off < 0 or off % slot_size or hd is None:
                         items.append("%s:@%d+%d" % (r["kind"], r["off"], r["len"]))
                     else:
